@@ -168,3 +168,204 @@ Proof. vm_compute. repeat split. Qed.
 (** the hypothesis of the frame theorems is satisfiable: Copy a -> x does not address b *)
 Example C02_ex_frame_hyp : forall s p, In s (targets (OCopy [97] [120])) -> reduce s = Some p -> is_prefix p [[98]] = false.
 Proof. intros s p [<-|[]] H. vm_compute in H. inversion H. reflexivity. Qed.
+
+(** * Proof audit: histories through child filespaces, every backend pair, the frame over
+    histories, and the statement's three preconditions taken literally.
+    Definitions: Model/DiskHist.v; proofs: Proofs/DiskHist.v, Proofs/DiskFrame.v, Proofs/DiskSub.v. *)
+From GC Require Import Model.DiskHist Proofs.DiskHist Proofs.DiskFrame Proofs.DiskSub.
+
+(** Histories over HELD views: every step names the filespace it goes through by its reduced base
+    [b] ([] = the root, any depth of nesting = a longer [b]); disk child [d_step b] against the
+    memfs root / child view holding the string [view_base b].  Root and child steps may be mixed
+    freely.  [pre_hist_at]: at every step the base is a directory and [pre_at] holds.
+    Supersedes C02_equiv_history (the case where every base is []) and C02_view (one step). *)
+Theorem C02_equiv_held_views : forall h t, WF t -> pre_hist_at t h = true ->
+  tree_equiv (fst (fst (run_both_at t t h))) (snd (fst (run_both_at t t h))) /\
+  WF (fst (fst (run_both_at t t h))) /\
+  Forall (fun p => out_equiv (fst p) (snd p)) (snd (run_both_at t t h)).
+Proof.
+  intros h t H Hp. destruct (equiv_held_history h t H Hp) as (A & B & C).
+  split; [|split; [exact B|exact C]]. intros q. rewrite A. reflexivity.
+Qed.
+Print Assumptions C02_equiv_held_views.
+
+(** Histories in which every step makes its filespace afresh by a chain of Filespace calls of any
+    length with raw arguments ([hist_step], the memfs history step of C01, against
+    [disk_hist_step]); [pre_vhist]: every link of the chain addresses an existing directory (the
+    precondition of Filespace itself) and the operation meets [pre_at] there. *)
+Theorem C02_equiv_view_history : forall h t, WF t -> pre_vhist t h = true ->
+  tree_equiv (fst (fst (run_both_v t t h))) (snd (fst (run_both_v t t h))) /\
+  WF (fst (fst (run_both_v t t h))) /\
+  Forall (fun p => out_equiv (fst p) (snd p)) (snd (run_both_v t t h)).
+Proof.
+  intros h t H Hp. destruct (equiv_view_history h t H Hp) as (A & B & C).
+  split; [|split; [exact B|exact C]]. intros q. rewrite A. reflexivity.
+Qed.
+Print Assumptions C02_equiv_view_history.
+
+(** … and with the preconditions in the property's own wording at every step ([prop_pre_at]). *)
+Theorem C02_property_history : forall h t, WF t -> prop_pre_vhist t h = true ->
+  tree_equiv (fst (fst (run_both_v t t h))) (snd (fst (run_both_v t t h))) /\
+  WF (fst (fst (run_both_v t t h))) /\
+  Forall (fun p => out_equiv (fst p) (snd p)) (snd (run_both_v t t h)).
+Proof.
+  intros h t H Hp. destruct (property_history h t H Hp) as (A & B & C).
+  split; [|split; [exact B|exact C]]. intros q. rewrite A. reflexivity.
+Qed.
+Print Assumptions C02_property_history.
+
+(** Every backend pair.  [sub b t] is the tree seen from the directory [b].
+    memfs child against memfs root, NO precondition on the operation: a child view with base [b]
+    is a memfs root on [sub b t] - same output, and the new tree re-rooted is the root's. *)
+Theorem C02_mem_child_is_mem_root : forall b t o, WF t -> good_path b = true -> is_dir_at t b = true ->
+  mem_step (sub b t) o = (sub b (fst (view_step (view_base b) t o)), snd (view_step (view_base b) t o)).
+Proof. exact view_is_root_of_sub. Qed.
+Print Assumptions C02_mem_child_is_mem_root.
+
+(** The preconditions read the same from the child at [b] and from a root on the sub-tree. *)
+Theorem C02_pre_rerooted : forall b t o, is_dir_at t b = true -> pre (sub b t) o = pre_at b t o.
+Proof. exact pre_at_sub. Qed.
+Print Assumptions C02_pre_rerooted.
+
+(** disk child against memfs root, memfs child against disk root, disk child against disk root. *)
+Theorem C02_disk_child_vs_mem_root : forall b t o,
+  WF t -> good_path b = true -> is_dir_at t b = true -> pre_at b t o = true ->
+  sub b (fst (disk_view_step b t o)) = fst (mem_step (sub b t) o) /\
+  out_equiv (snd (disk_view_step b t o)) (snd (mem_step (sub b t) o)).
+Proof. exact child_disk_root_mem. Qed.
+Print Assumptions C02_disk_child_vs_mem_root.
+
+Theorem C02_mem_child_vs_disk_root : forall b t o,
+  WF t -> good_path b = true -> is_dir_at t b = true -> pre_at b t o = true ->
+  fst (disk_step (sub b t) o) = sub b (fst (view_step (view_base b) t o)) /\
+  out_equiv (snd (disk_step (sub b t) o)) (snd (view_step (view_base b) t o)).
+Proof. exact child_mem_root_disk. Qed.
+Print Assumptions C02_mem_child_vs_disk_root.
+
+Theorem C02_disk_child_vs_disk_root : forall b t o,
+  WF t -> good_path b = true -> is_dir_at t b = true -> pre_at b t o = true ->
+  sub b (fst (disk_view_step b t o)) = fst (disk_step (sub b t) o) /\
+  out_equiv (snd (disk_view_step b t o)) (snd (disk_step (sub b t) o)).
+Proof. exact child_disk_root_disk. Qed.
+Print Assumptions C02_disk_child_vs_disk_root.
+
+(** … on whole histories: the disk child rooted at [b] of [td] and a memfs root started on
+    [sub b td] stay in step (the root's tree is the child's sub-tree after every history), and
+    the other way round. *)
+Theorem C02_disk_child_vs_mem_root_history : forall b, good_path b = true -> forall h td, WF td ->
+  pre_hist_in b td h = true ->
+  snd (fst (run_child_disk b td (sub b td) h)) = sub b (fst (fst (run_child_disk b td (sub b td) h))) /\
+  WF (fst (fst (run_child_disk b td (sub b td) h))) /\
+  Forall (fun p => out_equiv (fst p) (snd p)) (snd (run_child_disk b td (sub b td) h)).
+Proof. exact child_disk_root_mem_history. Qed.
+Print Assumptions C02_disk_child_vs_mem_root_history.
+
+Theorem C02_mem_child_vs_disk_root_history : forall b, good_path b = true -> forall h tm, WF tm ->
+  pre_hist_mview b tm h = true ->
+  fst (fst (run_child_mem b (sub b tm) tm h)) = sub b (snd (fst (run_child_mem b (sub b tm) tm h))) /\
+  WF (snd (fst (run_child_mem b (sub b tm) tm h))) /\
+  Forall (fun p => out_equiv (fst p) (snd p)) (snd (run_child_mem b (sub b tm) tm h)).
+Proof. exact child_mem_root_disk_history. Qed.
+Print Assumptions C02_mem_child_vs_disk_root_history.
+
+(** Clean failure over whole histories, NO precondition on any operation: each backend run on its
+    own over any history of root / held-child steps; a path [q] that no step addresses (it is
+    neither a target nor below one) keeps its node to the end, and the only thing that can appear
+    at [q] is a directory leading to some target; both final trees are well formed.
+    Supersedes C02_clean_failure / C02_view_confined / C02_wf_preserved (one step). *)
+Theorem C02_clean_failure_history : forall h t q,
+  WF t -> (forall bo, In bo h -> good_path (fst bo) = true) -> unaddressed h q ->
+  hframe h t (run_disk_at t h) q /\ hframe h t (run_mem_at t h) q /\
+  WF (run_disk_at t h) /\ WF (run_mem_at t h).
+Proof. exact frame_history. Qed.
+Print Assumptions C02_clean_failure_history.
+
+(** The statement's parenthesis taken literally (source exists, destination parent exists,
+    destination of a copy is absent) is NOT enough: a directory copied into itself meets all three,
+    disk refuses and changes nothing, memfs copies the state before the call.  The real code does
+    the same (checked with a scratch test: diskfs: can not copy directory into itself; memfs: nil
+    and a/x/f).  [prop_pre_at] / [pre_at] therefore ask for a destination outside the source. *)
+Theorem C02_literal_preconditions_refuted :
+  let o := OCopy [97] [97;47;120] in                     (* Copy a -> a/x on a/ a/f b *)
+  exists_at tA [[97]] = true /\ is_dir_at tA (removelast [[97];[120]]) = true /\
+  exists_at tA [[97];[120]] = false /\
+  disk_step tA o = (tA, RErr) /\
+  mem_step tA o = (tA ++ [([[97];[120]], D); ([[97];[120];[102]], F [1;2;3])], RUnit) /\
+  disk_step tA (OCopyDir [97] [97;47;120]) = (tA, RErr) /\
+  snd (mem_step tA (OCopyDir [97] [97;47;120])) = RUnit /\
+  prop_pre_at [] tA o = false.
+Proof. vm_compute. repeat split. Qed.
+Print Assumptions C02_literal_preconditions_refuted.
+
+(** ** Non-vacuity of the new hypotheses.  a=97 b=98 c=99 f=102 g=103 k=107 l=108 x=120 *)
+Definition hHeld : list (path * op) :=
+  [([], OMkdirAll [97;47;98]);                              (* root: mkdir a/b *)
+   ([[97]], OWriteFile [98;47;102] [104;105]);              (* child a: b/f := hi *)
+   ([[97];[98]], OCopy [102] [46;47;103]);                  (* child a/b: copy f -> ./g *)
+   ([[97]], OWriter [98;47;47;120] [[1];[2;3]]);            (* child a: writer b//x *)
+   ([[97]], ORemove [98;47;102]);
+   ([[97];[98]], OReader [103] [1%nat;5%nat]);
+   ([], OCopyDir [97;47;98] [99]);                          (* root: copy a/b -> c *)
+   ([[99]], ORemoveAll [103]);                              (* child c *)
+   ([], OReadDir [97;47;98])].
+Example C02_ex_held_pre : pre_hist_at [] hHeld = true.
+Proof. vm_compute. reflexivity. Qed.
+Example C02_ex_held_result :
+  fst (fst (run_both_at [] [] hHeld)) =
+  [([[97]], D); ([[97];[98]], D); ([[97];[98];[103]], F [104;105]); ([[97];[98];[120]], F [1;2;3]);
+   ([[99]], D); ([[99];[120]], F [1;2;3])].
+Proof. vm_compute. reflexivity. Qed.
+
+(** chains: one and two links, odd spellings, a view of the root itself, a view of a view of c *)
+Definition hV : list (list bytes * op) :=
+  [([], OMkdirAll [97;47;98]);
+   ([[97]], OWriteFile [98;47;102] [104;105]);
+   ([[97];[46;47;98;47]], OCopy [102] [46;47;103]);         (* Filespace(a).Filespace(./b/) *)
+   ([[46]], OWriter [97;47;98;47;47;120] [[1];[2;3]]);      (* Filespace(.) *)
+   ([[97;47;98]], ORemove [102]);                           (* Filespace(a/b) *)
+   ([[97];[98]], OReader [103] [1%nat;5%nat]);
+   ([], OCopyDir [97;47;98] [99]);
+   ([[99];[46]], ORemoveAll [103]);
+   ([[97]], OReadDir [98])].
+Example C02_ex_chain_pre : pre_vhist [] hV = true /\ prop_pre_vhist [] hV = true.
+Proof. vm_compute. split; reflexivity. Qed.
+Example C02_ex_chain_result :
+  fst (fst (run_both_v [] [] hV)) = fst (fst (run_both_at [] [] hHeld)) /\
+  nth 5 (snd (run_both_v [] [] hV)) (RErr, RErr) =
+    (RChunks [([104], false); ([105], false)], RChunks [([104], false); ([105], true)]).
+Proof. vm_compute. split; reflexivity. Qed.
+(** a chain whose directory is missing is outside the preconditions (disk refuses, memfs does not) *)
+Example C02_ex_chain_missing :
+  pre_chain tA ([[120]], OMkdirAll [103]) = false /\
+  disk_hist_step tA ([[120]], OMkdirAll [103]) = (tA, RErr) /\
+  snd (hist_step tA ([[120]], OMkdirAll [103])) = RUnit.
+Proof. vm_compute. repeat split. Qed.
+
+(** a child at a against the root of the other backend on sub a tA = [f] *)
+Definition hC : list op :=
+  [OMkdirAll [107;47;108]; OWriteFile [107;47;108;47;103] [122;122]; OCopy [107] [99];
+   ORemoveAll [107;47;108]; OCopyFile [102] [107;47;102]; OReadDir []; OLstat [99;47;108;47;103]].
+Example C02_ex_child_pre :
+  sub [[97]] tA = [([[102]], F [1;2;3])] /\ is_dir_at tA [[97]] = true /\
+  pre_hist_in [[97]] tA hC = true /\ pre_hist_mview [[97]] tA hC = true.
+Proof. vm_compute. repeat split. Qed.
+Example C02_ex_child_result :
+  snd (fst (run_child_disk [[97]] tA (sub [[97]] tA) hC)) =
+  [([[102]], F [1;2;3]); ([[107]], D); ([[99]], D); ([[99];[108]], D); ([[99];[108];[103]], F [122;122]);
+   ([[107];[102]], F [1;2;3])] /\
+  fst (fst (run_child_mem [[97]] (sub [[97]] tA) tA hC)) = snd (fst (run_child_disk [[97]] tA (sub [[97]] tA) hC)).
+Proof. vm_compute. split; reflexivity. Qed.
+
+(** the frame over a history: nothing in hHeld addresses b (a file of tA), and it is still there *)
+Example C02_ex_unaddressed :
+  unaddressed hHeld [[98]] /\ (forall bo, In bo hHeld -> good_path (fst bo) = true) /\
+  lookup (run_disk_at tA hHeld) [[98]] = Some (F [9]) /\ lookup (run_mem_at tA hHeld) [[98]] = Some (F [9]).
+Proof.
+  split; [|split; [|vm_compute; split; reflexivity]].
+  - intros bo s p Hin Hs Hp. unfold hHeld in Hin. cbn [In] in Hin.
+    repeat (destruct Hin as [<-|Hin]; [cbn [snd targets In] in Hs;
+      repeat (destruct Hs as [<-|Hs]; [vm_compute in Hp; inversion Hp; reflexivity|]); destruct Hs|]).
+    destruct Hin.
+  - intros bo Hin. unfold hHeld in Hin. cbn [In] in Hin.
+    repeat (destruct Hin as [<-|Hin]; [reflexivity|]). destruct Hin.
+Qed.
